@@ -76,18 +76,30 @@ def make_classes():
         def __len__(self):
             return 0
 
+    class Normalizer(metaclass=singleton.semi_singleton_metaclass()):
+        """__init__ edits its mutable keyword arguments in place (sorts lists, adds a default key to dicts)."""
+
+        def __init__(self, *args, **kwargs):
+            INIT_LOG.append((type(self).__name__, id(self), tuple(args), json.loads(json.dumps(kwargs))))
+            for v in kwargs.values():
+                if isinstance(v, list):
+                    v.append("normalised")
+                elif isinstance(v, dict):
+                    v.setdefault("normalised", True)
+            self.args = args
+
     class SVertex(Vertex, metaclass=singleton.semi_singleton_metaclass()):
         def __init__(self, *args, **kwargs):
             INIT_LOG.append((type(self).__name__, id(self), args, dict(kwargs)))
             super().__init__()
 
-    classes = {c.__name__: c for c in (Own1, Own2, SharedA, SharedB, Parent, Child, Custom, SVertex, EmptyBag)}
+    classes = {c.__name__: c for c in (Own1, Own2, SharedA, SharedB, Parent, Child, Custom, SVertex, EmptyBag, Normalizer)}
     return classes
 
 
-CLASS_NAMES = ["Own1", "Own2", "SharedA", "SharedB", "Parent", "Child", "Custom", "SVertex", "EmptyBag"]
+CLASS_NAMES = ["Own1", "Own2", "SharedA", "SharedB", "Parent", "Child", "Custom", "SVertex", "EmptyBag", "Normalizer"]
 ARRANGEMENT = {"Own1": "own", "Own2": "own", "SharedA": "shared_metaclass", "SharedB": "shared_metaclass",
-               "Parent": "subclassing", "Child": "subclassing", "Custom": "custom_hashfunc", "SVertex": "vertex_subclass", "EmptyBag": "falsy_instances"}
+               "Parent": "subclassing", "Child": "subclassing", "Custom": "custom_hashfunc", "SVertex": "vertex_subclass", "EmptyBag": "falsy_instances", "Normalizer": "init_mutates_arguments"}
 
 
 def model_key(cname, args, kwargs):
@@ -155,9 +167,11 @@ def run_history(ctx, ops, record=True):
             ctx.evaluated()
         if kind == "new":
             args, kwargs = _args(op)
-            key = model_key(cname, args, kwargs)
+            key = model_key(cname, args, kwargs)  # from the arguments as passed: __init__ may edit them in place
+            passed_kwargs = json.loads(json.dumps(kwargs))
             n0 = len(INIT_LOG)
             res = oracles.outcome(cls, *args, **kwargs)
+            kwargs = passed_kwargs
             if res[0] != "ok":
                 viol(f"construct:raised:{res[1].__name__}", f"{cname}{args}{kwargs} raised", k)
                 break
@@ -286,7 +300,7 @@ def prelude():
     """Seed-independent scripts that make every arrangement x situation appear."""
     out = []
     for a, b in (("Own1", "Own2"), ("SharedA", "SharedB"), ("Parent", "Child"), ("Child", "Parent"), ("Custom", "Own1"),
-                 ("SVertex", "Own1"), ("SharedB", "SharedA"), ("EmptyBag", "Own1"), ("Own2", "EmptyBag")):
+                 ("SVertex", "Own1"), ("SharedB", "SharedA"), ("EmptyBag", "Own1"), ("Own2", "EmptyBag"), ("Normalizer", "Own1")):
         for v1, v2 in ((0, 1), (2, 3), (5, 6), (12, 13), (19, 20), (9, 9)):
             out.append([
                 {"op": "new", "c": a, "a": [v1], "k": 0, "i": 0},
@@ -321,7 +335,7 @@ def floors(ctx):
     q = ctx.tier == "quick"
     return {"evaluations": 5000 if q else 50000, "histories": 200 if q else 2000, "cache_hits": 1000 if q else 10000,
             "histories_shared_metaclass": 20, "histories_subclassing": 20, "histories_custom_hashfunc": 20,
-            "histories_falsy_instances": 20}
+            "histories_falsy_instances": 20, "histories_init_mutates_arguments": 20}
 
 
 def judge(ctx, ops):
